@@ -1,4 +1,6 @@
 mod global_id;
+#[cfg(feature = "verif")]
+mod verif;
 
 use hashbrown::HashMap;
 
